@@ -66,6 +66,7 @@ class Engine:
         self.nmerge_bind = 0
         self.decided = {}
         self.bind_memo = {}
+        self.pred_memo = {}
         self.iv = {}
         self.bind_log = []
 
@@ -90,6 +91,7 @@ class Engine:
         self.nmerge = 0
         self.decided = {}
         self.bind_memo = {}
+        self.pred_memo = {}
         self.lits = None
         self.in_merge = 0
         self.no_fork = 0
@@ -143,6 +145,25 @@ class Engine:
         if not self.in_merge:
             self.bind_memo[expr.get_id()] = (v, expr)
         return v
+
+    def bind_pred(self, z, name, ranges):
+        """Boolean variable standing for a (large, table-driven) character-class test of the term z;
+        defined once per path and term, so the table enters the solver once"""
+        key = (z.get_id(), name)
+        hit = self.pred_memo.get(key)
+        if hit is not None:
+            return hit[0]
+        if len(ranges) <= 8:
+            b = in_ranges(z, ranges)
+        else:
+            self.nbind += 1
+            b = z3.Bool("_p%d" % self.nbind)
+            d = b == in_ranges(z, ranges)
+            self.solver.add(d)
+            self.bind_log.append((d, b, None, None))
+            self.model = None
+        self.pred_memo[key] = (b, z)
+        return b
 
     def interval(self, z, default):
         """static interval remembered for a term (input variable or let-bound variable)"""
@@ -748,8 +769,19 @@ def in_ranges(z, ranges):
             if a <= lo and hi <= b:
                 E.n_static += 1
                 return z3.BoolVal(True)
+    if len(ranges) > 8:
+        return _range_tree(z, ranges, 0, len(ranges))
     alts = [z == bv(a) if a == b else z3.And(z >= bv(a), z <= bv(b)) for a, b in ranges]
     return alts[0] if len(alts) == 1 else z3.Or(alts)
+
+
+def _range_tree(z, ranges, lo, hi):
+    """membership in sorted disjoint ranges as a balanced decision tree (much cheaper for the solver than a flat Or)"""
+    if hi - lo == 1:
+        a, b = ranges[lo]
+        return z == bv(a) if a == b else z3.And(z >= bv(a), z <= bv(b))
+    mid = (lo + hi) // 2
+    return z3.If(z < bv(ranges[mid][0]), _range_tree(z, ranges, lo, mid), _range_tree(z, ranges, mid, hi))
 
 
 _RANGE_CACHE = {}
@@ -930,7 +962,16 @@ class SStr(SSeq):
         if not self.e:
             return False
         r = unicode_ranges(name)
-        return mk_bool(z3.And([in_ranges(ez(c), r) for c in self.e]))
+        conds = []
+        for c in self.e:
+            if isinstance(c, int):
+                if not getattr(chr(c), name)():
+                    return False
+                continue
+            conds.append(E.bind_pred(c, name, r))
+        if not conds:
+            return True
+        return SBool(conds[0] if len(conds) == 1 else z3.And(conds))
 
     def isdigit(self):
         return self._allin("isdigit")
